@@ -40,6 +40,11 @@ CORPUS = [{"tree": {"Ab": {"d": {"k.txt": {"f": "6b"}}}}, "steps": [{"op": "crea
           {"tree": {"proxies 50%": {"d": {"a.bin": {"f": "0102"}, "%s {0}": {"d": {"b.bin": {"f": "03"}}}}}, "x%d": {"f": "04"}},
            "steps": [{"op": "create", "fmts": ["md5"]}, {"op": "set", "path": "proxies 50%/%s {0}/b.bin", "data": "ff"}, {"op": "verifydh"}, {"op": "verify"}, {"op": "diff"},
                      {"op": "delete", "path": "x%d"}, {"op": "verifydh"}, {"op": "verify"}, {"op": "create", "fmts": ["md5"]}]}]
+# entries whose names start with "._" are entries like any other (no ignore pattern names them): at the root, in a sub-folder,
+# beside a file of the same name without the prefix, and alone
+CORPUS += [{"tree": {"._a001.mov": {"f": "0101"}, "a001.mov": {"f": "0202"}, "Reel": {"d": {"._x.bin": {"f": "0303"}, "y.bin": {"f": "0404"}}}},
+            "steps": [{"op": "create", "fmts": ["md5", "c4"]}, {"op": "verifydh"}, {"op": "set", "path": "._a001.mov", "data": "aa"}, {"op": "verifydh"},
+                      {"op": "create", "fmts": ["md5", "c4"]}, {"op": "delete", "path": "Reel/._x.bin"}, {"op": "verifydh"}, {"op": "verify"}]}]
 check, replay = make("C09", oracles.oracle_c09, scenario, 70, 2000, RULE,
                      corpus_defects=[defects.d02_c09_flat_root_change, defects.d03_c09_mixed_format_child, defects.d04_c09_no_dirhash_generation],
                      nontrivial=lambda scn, obs: any(s["op"] in ("set", "rename", "add", "delete") for s in scn["steps"]), corpus=CORPUS)
